@@ -2,12 +2,46 @@
 use crate::report::{Ctx, Reporter};
 
 pub mod c01;
+pub mod c02;
+pub mod c03;
+pub mod c04;
+pub mod c05;
+pub mod c06;
+pub mod c07;
+pub mod c08;
+pub mod c09;
+pub mod c10;
+pub mod c11;
+pub mod c12;
+pub mod c13;
+pub mod c14;
+pub mod c15;
+pub mod c16;
+pub mod c17;
 pub mod c18;
+pub mod c19;
 
 pub fn run(id: &str, ctx: &Ctx, rep: &mut Reporter) -> bool {
     match id {
         "C01" => c01::run(ctx, rep),
+        "C02" => c02::run(ctx, rep),
+        "C03" => c03::run(ctx, rep),
+        "C04" => c04::run(ctx, rep),
+        "C05" => c05::run(ctx, rep),
+        "C06" => c06::run(ctx, rep),
+        "C07" => c07::run(ctx, rep),
+        "C08" => c08::run(ctx, rep),
+        "C09" => c09::run(ctx, rep),
+        "C10" => c10::run(ctx, rep),
+        "C11" => c11::run(ctx, rep),
+        "C12" => c12::run(ctx, rep),
+        "C13" => c13::run(ctx, rep),
+        "C14" => c14::run(ctx, rep),
+        "C15" => c15::run(ctx, rep),
+        "C16" => c16::run(ctx, rep),
+        "C17" => c17::run(ctx, rep),
         "C18" => c18::run(ctx, rep),
+        "C19" => c19::run(ctx, rep),
         _ => return false,
     }
     true
